@@ -167,6 +167,24 @@ def hostile_programs(rng):
          "class D extends G<int> {\n    public int own = 1;\n    public constructor() -> D {\n        super();\n        return this;\n    }\n}\n"
          "class G<T> extends B {\n    public T t;\n    public constructor() -> G<T> {\n        super();\n        return this;\n    }\n}\n"
          "class B {\n    public int x = 5;\n    public int y = 7;\n    public constructor() -> B {\n        return this;\n    }\n}\n")
+    # user declarations that reuse the name of a built-in (normally rejected; if accepted, the call must still
+    # be dispatched consistently by analyser and evaluator)
+    for nm in ("h", "x", "cx", "rz", "measure", "echo", "reset"):
+        if nm in ("measure", "echo", "reset"):
+            continue    # keywords cannot even be written as a function name: the parser's business (C13)
+        prog("function-named-like-a-gate:%s:0" % nm, "    echo(%s());" % nm, "function %s() -> int {\n    return 1;\n}\n" % nm)
+        prog("function-named-like-a-gate:%s:int" % nm, "    echo(%s(3));" % nm, "function %s(int k) -> int {\n    return k;\n}\n" % nm)
+        prog("method-named-like-a-gate:%s" % nm, "    GN g = new GN();\n    echo(g.%s());\n    qubit q;\n    h(q);\n    echo(1);" % nm,
+             "class GN {\n    public constructor() -> GN = default;\n    public function %s() -> int {\n        return 7;\n    }\n}\n" % nm)
+    # static members of a generic class reached through the bare template name, with 0..2 arguments
+    for nparams, tps in ((1, "T"), (2, "A, B"), (3, "A, B, C")):
+        fld = "    public int n = 1;\n"
+        prog("generic-static-through-bare-name:%d" % nparams,
+             "    echo(GS.answer());\n    echo(GS.twice(4));\n    echo(GS.pair(1, 2));\n    GS.count = GS.count + 1;\n    echo(GS.count);",
+             "class GS<%s> {\n%s    public static int count = 5;\n    public constructor() -> GS<%s> = default;\n"
+             "    public static function answer() -> int {\n        return 42;\n    }\n"
+             "    public static function twice(int k) -> int {\n        return k + k;\n    }\n"
+             "    public static function pair(int a, int b) -> int {\n        return a * 10 + b;\n    }\n}\n" % (tps, fld, tps))
     # heaps the collector has to walk: reachable cycles, long chains and object arrays alive while
     # allocation pressure (> 16 allocations) triggers collections
     ring = ("class R {\n    public R next;\n    public R prev;\n    public int v;\n    public constructor(int v) -> R {\n        this.v = v;\n        return this;\n    }\n}\n")
